@@ -203,7 +203,7 @@ def cdda_open(d):
     tracks = [{"number": 1, "title": "ONE", "indices": [(1, 0)]}, {"number": 2, "title": "ONE", "indices": [(1, 2)]},
               {"number": 3, "title": None, "indices": [(0, 3), (1, 4)]}]
     with open(os.path.join(d, "disc.bin"), "wb") as f:
-        f.write(Q.bin_bytes(Q.SECTOR * 6 + 2))
+        f.write(Q.bin_bytes(Q.SECTOR * 6 + 1002))
     p = os.path.join(d, "disc.cue")
     with open(p, "w") as f:
         f.write(Q.cue_text("disc.bin", tracks))
@@ -288,7 +288,7 @@ class Subject:
             return self.bio.getvalue() == payload(self.fmt)
         if self.fmt == "cdda":
             with open(os.path.join(self.scratch, "disc.bin"), "rb") as f:
-                return f.read() == Q.bin_bytes(Q.SECTOR * 6 + 2)
+                return f.read() == Q.bin_bytes(Q.SECTOR * 6 + 1002)
         with open(self.path, "rb") as f:
             return f.read() == payload(self.fmt[:-5])
 
